@@ -629,6 +629,12 @@ SYSTEMATIC = [
     # the user shuts down while a caller issues its request
     {'callers': [{'key': ['read', 'm:value'], 'delay': 0}, {'key': ['change', 'm:target'], 'delay': 0.2}],
      'plan': [{'do': 'reply', 'k': 0}, {'do': 'sleep', 'dt': 1.5}], 'local_disconnect': 0.2},
+    # a caller held between connect() and the queueing of its request until the transmit thread of the lost connection has ended
+    {'callers': [{'key': ['read', 'm:_p'], 'delay': 0}, {'key': ['read', 'm:value'], 'delay': 0.5, 'stall': 'tx_done'}, {'key': ['do', 'm:go'], 'delay': 0}],
+     'plan': [{'do': 'sleep', 'dt': 1.0}, {'do': 'drop', 'how': 'close'}]},
+    # the same while the user shuts down
+    {'callers': [{'key': ['read', 'm:value'], 'delay': 0}, {'key': ['change', 'm:target'], 'delay': 0.1, 'stall': 'tx_done'}],
+     'plan': [{'do': 'sleep', 'dt': 1.5}, {'do': 'reply', 'k': 0}], 'local_disconnect': 0.5},
 ]
 
 
